@@ -22,8 +22,9 @@ import Autog.Model.Phase5
     under options from which every size and spacing has been removed and attaches the configured sizes only before phase 4; it is
     compared with the public result of the real `Layout` on every traced run (`T:pipeline-sizes`). For SinkColoring, VAlign, PackRight and
     every router with an exact model: `layoutModelS (scaleCfg c cfg) es = (layoutModelS cfg es).map (scaleOut c)` for every c > 0.
-    PARTIAL: Brandes–Köpf is decided by exact comparison at 2^k (k ∈ −3..6, also in tiny and huge units) on
-    generated inputs plus the `Numbers` facts (the float literals and float-typed constants of phases 4/5 are pinned; no size or
+    Brandes–Köpf after the four compactions (`C17_bk_finish_scale`): selection / balancing with sorted medians, verification, writing.
+    PARTIAL: the four candidate layouts of Brandes–Köpf (conflict marking, vertical alignment, horizontal compaction) are decided by exact
+    comparison at 2^k (k ∈ −3..6, also in tiny and huge units) on generated inputs plus the `Numbers` facts (the float literals and float-typed constants of phases 4/5 are pinned; no size or
     spacing is read in phases 1–3: fact `sizeReadsPhases123`, which is what connects `C17_phase45_scale` to the whole pipeline). -/
 
 namespace Autog
